@@ -2239,6 +2239,12 @@ func (a *Authenticator) handleClientAuthentication(ctx context.Context, negotiat
 			continue
 		}
 
+		// The server must choose among the methods we offered in this round.
+		if serverResponse&availableBitmask == 0 {
+			return fmt.Errorf("server selected authentication method %s (0x%x) which was not offered (0x%x)",
+				selectedMethod, serverResponse, availableBitmask)
+		}
+
 		slog.Debug(fmt.Sprintf("🔐 CLIENT: Attempting authentication method: %s", selectedMethod), "destination", "cedar")
 
 		// Perform the specific authentication method
